@@ -2076,6 +2076,11 @@ class Path:
             if not env.spec:
                 self.guard(z3.Not(opt_is_none(base.t)), "TypeError", line)
             base = V(opt_val(base.t), base.s.inner)
+        if isinstance(base.s, SeqS) and isinstance(idx.s, OptS) and idx.s.inner == INT:
+            # an Optional[int] used as an index: None is a TypeError, otherwise the integer
+            if not env.spec:
+                self.guard(z3.Not(opt_is_none(idx.t)), "TypeError", line)
+            idx = V(opt_val(idx.t), INT)
         if isinstance(base.s, SeqS):
             ln = seq_len(base.t)
             if env.spec:
